@@ -226,6 +226,30 @@ pub fn pattern_dfa(regex: &'static str) -> &'static Dfa {
     d
 }
 
+/// the three readings of '.' (All, NoNl, NoNlCr), cached
+pub fn pattern_dfas3(regex: &'static str) -> &'static [Dfa; 3] {
+    static CACHE: OnceLock<Mutex<HashMap<&'static str, &'static [Dfa; 3]>>> = OnceLock::new();
+    let m = CACHE.get_or_init(|| Mutex::new(HashMap::new()));
+    let mut g = m.lock().unwrap();
+    if let Some(d) = g.get(regex) {
+        return d;
+    }
+    let d: &'static [Dfa; 3] = Box::leak(Box::new([
+        Dfa::compile(regex, DotMode::All).expect("regex"),
+        Dfa::compile(regex, DotMode::NoNl).expect("regex"),
+        Dfa::compile(regex, DotMode::NoNlCr).expect("regex"),
+    ]));
+    g.insert(regex, d);
+    d
+}
+
+/// does one of the languages that a validator is known to over-accept (open C19 findings) contain s?
+pub fn known_overaccepted(regex: &str, s: &[u8]) -> bool {
+    static K: OnceLock<Vec<(&'static str, Dfa)>> = OnceLock::new();
+    let k = K.get_or_init(|| crate::c19::KNOWN_IMPL.iter().map(|(r, imp, _)| (*r, Dfa::compile(imp, DotMode::All).expect("regex"))).collect());
+    k.iter().any(|(r, d)| *r == regex && d.accepts(s))
+}
+
 /// plain alphabet preferred when a pattern class is large (no XML-escapable characters)
 pub const PLAIN: &[u8] = b"abcxyzABCXYZ0123456789_-. ";
 pub const RICH: &[u8] = b"ab09_-. &<>'\"#;";
